@@ -17,6 +17,7 @@ import types
 
 from .. import vloop, ncpsim, ncpmodel
 from ..runner import Acc
+from .. import logmode
 from ..contracts import install_status_contract
 
 PROPERTY = "C15"
@@ -102,7 +103,7 @@ def is_ok(st):
 def run_shard(desc) -> Acc:
     import bellows.multicast as mcast
 
-    logging.disable(logging.CRITICAL)
+    logmode.apply(desc)
     acc = Acc()
     install_status_contract(acc)
     V, n, depth = desc["version"], desc["n"], desc["depth"]
